@@ -1881,7 +1881,7 @@ func runNOPANICLOAD(c *Ctx) {
 	for fn := range reach {
 		fns = append(fns, fn)
 	}
-	sort.Slice(fns, func(i, j int) bool { return fns[i].Pos() < fns[j].Pos() })
+	sort.Slice(fns, func(i, j int) bool { return ir.PosLess(fns[i].Pos(), fns[j].Pos()) })
 	readers := 0
 	for _, fn := range fns {
 		if c.Facts.MayLoad[fn] {
@@ -1903,6 +1903,7 @@ func runNOPANICLOAD(c *Ctx) {
 	for _, fn := range fns {
 		f := pr.of(fn)
 		lmCheckConstIndexes(c, f, fn, lbChain(prev, fn))
+		lmCheckNilConfig(c, res, tn, f, fn, lbChain(prev, fn))
 		for _, b := range fn.Blocks {
 			if len(b.Instrs) == 0 {
 				continue
@@ -2492,4 +2493,436 @@ func lmAnyLen(v ssa.Value) (off int64, ok bool) {
 	}
 	bi, isB := call.Call.Value.(*ssa.Builtin)
 	return 0, isB && bi.Name() == "len" && len(call.Call.Args) == 1
+}
+
+// ---- NOPANICLOAD: configuration values that may be nil -----------------------------
+//
+// A Mast field copied from RemoteConfig without a default (zeroKey, zeroValue,
+// persist, nodeCache) is nil when the user left it unset. On the load path
+// (1) reflect.New(reflect.TypeOf(x)) with x such a field panics "reflect:
+// New(nil)", and (2) a method call on such an interface-typed field panics
+// with a nil dereference. Either needs the field to be non-nil on every path
+// to it. This is decided by valuation-pruned reachability (DESIGN §3.2): fix
+// "field == nil", delete the branch edges that contradict it — including the
+// entry of a counting loop over a list a surviving test proved empty — and
+// ask whether the instruction is still reachable.
+
+// lmCfgField: v is a load of field F of a Mast; returns the field address.
+func lmCfgField(v ssa.Value) *ssa.FieldAddr {
+	u, ok := ir.ResolveCell(ir.Strip(v)).(*ssa.UnOp)
+	if !ok || u.Op != token.MUL {
+		return nil
+	}
+	fa, ok := u.X.(*ssa.FieldAddr)
+	if !ok || !lpIsMastPtr(fa.X.Type()) {
+		return nil
+	}
+	return fa
+}
+
+func lmIsExt(call *ssa.Call, name string) bool {
+	sc := ir.Callee(call.Call)
+	return sc != nil && sc.String() == name
+}
+
+// lmNilVal: under the valuation "the field at sym is nil", is v nil?
+func lmNilVal(v ssa.Value, sym string) bool {
+	if fa := lmCfgField(v); fa != nil && ir.Sym(fa) == sym {
+		return true
+	}
+	if call, ok := ir.ResolveCell(v).(*ssa.Call); ok && lmIsExt(call, "reflect.TypeOf") && len(call.Call.Args) == 1 {
+		return lmNilVal(call.Call.Args[0], sym)
+	}
+	return false
+}
+
+// lmNilCond evaluates cond under the valuation.
+func lmNilCond(cond ssa.Value, sym string) (val, known bool) {
+	if v, ok := ir.ConstBool(cond); ok {
+		return v, true
+	}
+	tv, tnn, ok := ir.NilTest(cond)
+	if ok && lmNilVal(tv, sym) {
+		return !tnn, true
+	}
+	return false, false
+}
+
+type lmEdge struct{ from, to *ssa.BasicBlock }
+
+// lmReachableUnderNil: can block target execute when the configuration field
+// whose address has symbolic path sym is nil?
+func lmReachableUnderNil(fn *ssa.Function, sym string, target *ssa.BasicBlock) bool {
+	// a store to the field in this function: do not prune anything
+	for _, b := range fn.Blocks {
+		for _, ins := range b.Instrs {
+			if st, ok := ins.(*ssa.Store); ok {
+				if fa, ok := st.Addr.(*ssa.FieldAddr); ok && ir.Sym(fa) == sym {
+					return true
+				}
+			}
+		}
+	}
+	dead := map[lmEdge]bool{}
+	for _, b := range fn.Blocks {
+		if len(b.Instrs) == 0 || len(b.Succs) != 2 || b.Succs[0] == b.Succs[1] {
+			continue
+		}
+		iff, ok := b.Instrs[len(b.Instrs)-1].(*ssa.If)
+		if !ok {
+			continue
+		}
+		if v, known := lmNilCond(iff.Cond, sym); known {
+			if v {
+				dead[lmEdge{b, b.Succs[1]}] = true
+			} else {
+				dead[lmEdge{b, b.Succs[0]}] = true
+			}
+		}
+	}
+	reach := func(without lmEdge) map[*ssa.BasicBlock]bool {
+		return ir.ReachableFrom(fn.Blocks[0], func(a, b *ssa.BasicBlock) bool {
+			e := lmEdge{a, b}
+			return dead[e] || e == without
+		})
+	}
+	for round := 0; round < 4; round++ {
+		live := reach(lmEdge{})
+		if !live[target] {
+			return false
+		}
+		changed := false
+		for _, p := range fn.Blocks {
+			if !live[p] || len(p.Instrs) == 0 || len(p.Succs) != 2 {
+				continue
+			}
+			iff, ok := p.Instrs[len(p.Instrs)-1].(*ssa.If)
+			if !ok {
+				continue
+			}
+			// p tests `counter + k < len(S) + off` with counter ≥ c0
+			bin, ok := iff.Cond.(*ssa.BinOp)
+			if !ok || bin.Op != token.LSS || dead[lmEdge{p, p.Succs[0]}] {
+				continue
+			}
+			c0, k, okc := lmCounterMin(bin.X)
+			lenV, off, okl := lmLenPlus(bin.Y)
+			if !okc || !okl {
+				continue
+			}
+			// an upper bound of len(S) from tests every surviving path to p passes
+			ub, have := int64(0), false
+			for _, q := range fn.Blocks {
+				if !live[q] || q == p || len(q.Instrs) == 0 || len(q.Succs) != 2 {
+					continue
+				}
+				qi, ok := q.Instrs[len(q.Instrs)-1].(*ssa.If)
+				if !ok {
+					continue
+				}
+				for si, s := range q.Succs {
+					e := lmEdge{q, s}
+					if dead[e] || reach(e)[p] {
+						continue
+					}
+					if u, ok := lmLenUpper(qi.Cond, si == 0, lenV); ok && (!have || u < ub) {
+						ub, have = u, true
+					}
+				}
+			}
+			if have && c0+k >= ub+off {
+				dead[lmEdge{p, p.Succs[0]}] = true
+				changed = true
+			}
+		}
+		if !changed {
+			return true
+		}
+	}
+	return reach(lmEdge{})[target]
+}
+
+// lmCounterMin: v is phi+k for a counter phi that starts at constants and
+// only grows by one; returns its least value c0.
+func lmCounterMin(v ssa.Value) (c0, k int64, ok bool) {
+	var phi *ssa.Phi
+	if p, isP := v.(*ssa.Phi); isP {
+		phi = p
+	} else if b, isB := v.(*ssa.BinOp); isB && b.Op == token.ADD {
+		if p, isP := b.X.(*ssa.Phi); isP {
+			if n, isC := lmConstInt(b.Y); isC {
+				phi, k = p, n
+			}
+		}
+	}
+	if phi == nil {
+		return 0, 0, false
+	}
+	have := false
+	for _, e := range phi.Edges {
+		if n, isP := lmPhiPlus(e, phi); isP && n == 1 {
+			continue
+		}
+		n, isC := lmConstInt(e)
+		if !isC {
+			return 0, 0, false
+		}
+		if !have || n < c0 {
+			c0, have = n, true
+		}
+	}
+	return c0, k, have
+}
+
+// lmLenPlus: v is len(S)+off; returns the symbolic path of S.
+func lmLenPlus(v ssa.Value) (s string, off int64, ok bool) {
+	if b, isB := v.(*ssa.BinOp); isB && (b.Op == token.ADD || b.Op == token.SUB) {
+		if n, isC := lmConstInt(b.Y); isC {
+			if s, o, ok := lmLenPlus(b.X); ok {
+				if b.Op == token.SUB {
+					n = -n
+				}
+				return s, o + n, true
+			}
+		}
+		return "", 0, false
+	}
+	call, isC := v.(*ssa.Call)
+	if !isC {
+		return "", 0, false
+	}
+	if bi, isB := call.Call.Value.(*ssa.Builtin); !isB || bi.Name() != "len" || len(call.Call.Args) != 1 {
+		return "", 0, false
+	}
+	return ir.Sym(call.Call.Args[0]), 0, true
+}
+
+// lmLenUpper: cond with outcome truth implies len(S) ≤ ub for the list s.
+func lmLenUpper(cond ssa.Value, truth bool, s string) (ub int64, ok bool) {
+	for {
+		u, isU := cond.(*ssa.UnOp)
+		if !isU || u.Op != token.NOT {
+			break
+		}
+		truth = !truth
+		cond = u.X
+	}
+	bin, isB := cond.(*ssa.BinOp)
+	if !isB || lpNegOp(bin.Op) == token.ILLEGAL {
+		return 0, false
+	}
+	op := bin.Op
+	if !truth {
+		op = lpNegOp(op)
+	}
+	x, y := bin.X, bin.Y
+	if _, isC := lmConstInt(x); isC {
+		x, y = y, x
+		op = lpFlipOp(op)
+	}
+	ls, off, isL := lmLenPlus(x)
+	n, isC := lmConstInt(y)
+	if !isL || !isC || ls != s {
+		return 0, false
+	}
+	t := n - off // len op t
+	switch op {
+	case token.LSS:
+		return t - 1, true
+	case token.LEQ, token.EQL:
+		return t, true
+	}
+	return 0, false
+}
+
+// lmFieldMayBeNil: may field fa of a Mast be nil? No, if every value the
+// repository stores into that field is certainly non-nil.
+func lmFieldMayBeNil(res *lpResolver, fa *ssa.FieldAddr) bool {
+	vals := res.fieldSt[lpFieldKey(fa.X.Type(), fa.Field)]
+	if len(vals) == 0 {
+		return true
+	}
+	for _, v := range vals {
+		switch x := v.(type) {
+		case *ssa.MakeInterface, *ssa.MakeClosure, *ssa.Function, *ssa.Alloc, *ssa.MakeSlice, *ssa.MakeMap:
+		case *ssa.Const:
+			if x.Value == nil {
+				return true
+			}
+		default:
+			return true
+		}
+	}
+	// NewInMemory-style literals that do not mention the field leave it nil:
+	// a field that is not set by every constructor may be nil as well.
+	return true
+}
+
+// lmNilGuarded: instruction at (in fn) cannot execute while the configuration
+// field fa is nil — decided in fn, or else at every caller of fn (one level),
+// where the Mast handed to fn plays the role of fa's base.
+func lmNilGuarded(tn *lmTaint, fn *ssa.Function, fa *ssa.FieldAddr, at ssa.Instruction) (bool, string) {
+	if !lmReachableUnderNil(fn, ir.Sym(fa), at.Block()) {
+		return true, "unreachable when the field is nil (tests in " + ir.FuncName(fn) + ")"
+	}
+	p, ok := ir.ResolveCell(fa.X).(*ssa.Parameter)
+	if !ok || p.Parent() != fn {
+		return false, ""
+	}
+	idx := paramIndex(p)
+	cs := tn.callers[fn]
+	if len(cs) == 0 {
+		return false, ""
+	}
+	for _, ci := range cs {
+		args := ci.Common().Args
+		if idx >= len(args) || ci.Parent() == fn {
+			return false, ""
+		}
+		sym := ir.Sym(args[idx]) + "." + ir.FieldName(fa.X.Type(), fa.Field)
+		if lmReachableUnderNil(ci.Parent(), sym, ci.Block()) {
+			return false, ""
+		}
+	}
+	return true, fmt.Sprintf("every one of the %d call sites of %s is unreachable when the field is nil", len(cs), ir.FuncName(fn))
+}
+
+// lmCheckNilConfig examines reflect.New(TypeOf(field)) and method calls on
+// interface-typed configuration fields in the live blocks of fn.
+func lmCheckNilConfig(c *Ctx, res *lpResolver, tn *lmTaint, f *lpFunc, fn *ssa.Function, chain []string) {
+	P := c.P
+	for _, b := range fn.Blocks {
+		if !f.live[b] {
+			continue
+		}
+		for _, ins := range b.Instrs {
+			call, ok := ins.(*ssa.Call)
+			if !ok {
+				continue
+			}
+			pos := P.InstrPos(call)
+			// (2) method call on an interface-typed configuration field
+			if call.Call.IsInvoke() {
+				fa := lmCfgField(call.Call.Value)
+				if fa == nil {
+					continue
+				}
+				fname := ir.FieldName(fa.X.Type(), fa.Field)
+				what := fmt.Sprintf("method call m.%s.%s in %s", fname, call.Call.Method.Name(), ir.FuncName(fn))
+				if !lmFieldMayBeNil(res, fa) {
+					c.OK(pos, what, "every store to the field stores a non-nil value", true)
+					continue
+				}
+				if ok, why := lmNilGuarded(tn, fn, fa, call); ok {
+					c.OK(pos, what, why, false)
+					continue
+				}
+				c.Violation(fn, pos, fmt.Sprintf("method call on m.%s without m.%s!=nil", fname, fname),
+					fmt.Sprintf("%s calls %s on the configuration field m.%s, which is nil when the user left it unset, and nothing on the path tests it: LoadMast panics (nil dereference) instead of returning an error; reachable via %s",
+						ir.FuncName(fn), call.Call.Method.Name(), fname, fmtChain(chain)), "chain: "+fmtChain(chain))
+				continue
+			}
+			// (1) reflect.New(t)
+			if !lmIsExt(call, "reflect.New") || len(call.Call.Args) != 1 {
+				continue
+			}
+			t := ir.ResolveCell(call.Call.Args[0])
+			what := "reflect.New in " + ir.FuncName(fn)
+			guarded := false
+			for _, fc := range ir.FactsAt(b) {
+				tv, tnn, ok := ir.NilTest(fc.Cond)
+				if ok && fc.Truth == tnn && (ir.ResolveCell(tv) == t || lmSameCellLoad(fn, ir.ResolveCell(tv), t)) {
+					guarded = true
+				}
+			}
+			if guarded {
+				c.OK(pos, what, "dominated by a test that the type is not nil", false)
+				continue
+			}
+			tc, isCall := t.(*ssa.Call)
+			if isCall && lmIsExt(tc, "reflect.TypeOf") && len(tc.Call.Args) == 1 {
+				if fa := lmCfgField(tc.Call.Args[0]); fa != nil {
+					fname := ir.FieldName(fa.X.Type(), fa.Field)
+					what = fmt.Sprintf("reflect.New(TypeOf(m.%s)) in %s", fname, ir.FuncName(fn))
+					if ok, why := lmNilGuarded(tn, fn, fa, call); ok {
+						c.OK(pos, what, why, false)
+						continue
+					}
+					c.Violation(fn, pos, fmt.Sprintf("reflect.New(TypeOf(m.%s)) without m.%s!=nil", fname, fname),
+						fmt.Sprintf("%s calls reflect.New on the type of the configuration field m.%s, which is nil when the user left it unset, and nothing on the path excludes that: LoadMast panics (reflect: New(nil)) instead of returning an error; reachable via %s",
+							ir.FuncName(fn), fname, fmtChain(chain)), "chain: "+fmtChain(chain))
+					continue
+				}
+				if _, isMI := tc.Call.Args[0].(*ssa.MakeInterface); isMI {
+					c.OK(pos, what, "type of a concrete value", true)
+					continue
+				}
+				// the example value is a parameter: every caller must pass a
+				// concrete value or a configuration field that cannot be nil there
+				if p, isP := ir.ResolveCell(tc.Call.Args[0]).(*ssa.Parameter); isP && p.Parent() == fn && len(tn.callers[fn]) > 0 {
+					idx := paramIndex(p)
+					all, bad := true, ""
+					for _, ci := range tn.callers[fn] {
+						args := ci.Common().Args
+						if idx >= len(args) || ci.Parent() == fn {
+							all = false
+							break
+						}
+						if _, isMI := args[idx].(*ssa.MakeInterface); isMI {
+							continue
+						}
+						fa := lmCfgField(args[idx])
+						if fa == nil {
+							all = false
+							break
+						}
+						if lmReachableUnderNil(ci.Parent(), ir.Sym(fa), ci.Block()) {
+							bad = fmt.Sprintf("%s passes m.%s at %s where it may be nil", ir.FuncName(ci.Parent()), ir.FieldName(fa.X.Type(), fa.Field), P.InstrPos(ci))
+							break
+						}
+					}
+					if bad != "" {
+						c.Violation(fn, pos, "reflect.New(TypeOf(param "+fmt.Sprint(idx)+")) with a nil configuration value",
+							fmt.Sprintf("%s calls reflect.New on the type of its argument, and %s: LoadMast panics (reflect: New(nil)) instead of returning an error; reachable via %s",
+								ir.FuncName(fn), bad, fmtChain(chain)), "chain: "+fmtChain(chain))
+						continue
+					}
+					if all {
+						c.OK(pos, what, fmt.Sprintf("the example value is a parameter; each of the %d call sites passes a concrete value or a configuration field that cannot be nil there", len(tn.callers[fn])), false)
+						continue
+					}
+				}
+			}
+			c.Undecided(fn, pos, "reflect.New of an untraced type", "reflect.New on the load path with a type that is neither tested against nil nor the type of a configuration field: whether it can be nil is not decided", "chain: "+fmtChain(chain))
+		}
+	}
+}
+
+// lmSameCellLoad: a and b are two loads of the same local cell or captured
+// variable, which fn itself never writes (the test of one holds for the other).
+func lmSameCellLoad(fn *ssa.Function, a, b ssa.Value) bool {
+	ua, ok1 := a.(*ssa.UnOp)
+	ub, ok2 := b.(*ssa.UnOp)
+	if !ok1 || !ok2 || ua.Op != token.MUL || ub.Op != token.MUL || ua.X != ub.X {
+		return false
+	}
+	switch ua.X.(type) {
+	case *ssa.FreeVar, *ssa.Alloc:
+	default:
+		return false
+	}
+	for _, blk := range fn.Blocks {
+		for _, ins := range blk.Instrs {
+			if st, ok := ins.(*ssa.Store); ok && st.Addr == ua.X {
+				if _, isFV := ua.X.(*ssa.FreeVar); isFV {
+					return false
+				}
+				// the cell's single initialising store is fine; a second one is not
+				if a2, ok := ua.X.(*ssa.Alloc); ok && ir.SingleStore(a2) == nil {
+					return false
+				}
+			}
+		}
+	}
+	return true
 }
